@@ -34,6 +34,15 @@ def st_header():
     return st.integers(0, 7).flatmap(with_len)
 
 
+def build_header_ints(c):
+    """The same header with every enumerated field given as a plain integer / bool."""
+    H, _, _ = _m()
+    return H.PrimaryHeader(
+        scid=c["scid"], src_dest=c["src_dest"], vcid=c["vcid"], map_id=c["map_id"], frame_len=c["frame_len"], bypass_seq_ctrl_flag=c["bypass"], prot_ctrl_cmd_flag=c["prot_cmd"],
+        op_ctrl_flag=bool(c["ocf_flag"]), vcf_count_len=c["vcf_len"], vcf_count=c["vcf_count"] if c["vcf_len"] else None,
+    )
+
+
 def build_header(c):
     H, _, _ = _m()
     return H.PrimaryHeader(
@@ -66,6 +75,12 @@ def check_header(c):
     eq(devs, "hdr.pack", bytes(h.pack()), want)
     eq(devs, "hdr.len", h.len(), len(want))
     eq(devs, "hdr.obs", obs_header(h), want_header_obs(c))
+    from ..core import pack_fresh
+
+    pack_fresh(devs, "hdr.pack_returns_fresh_buffer", h.pack, want)
+    hi = build_header_ints(c)
+    eq(devs, "hdr.plain_int_fields.pack", bytes(hi.pack()), want)
+    eq(devs, "hdr.plain_int_fields.obs", obs_header(hi), want_header_obs(c))
     tail = bytes.fromhex(c["tail"])
     for tag, buf in (("exact", want), ("tail", want + tail), ("bytearray", bytearray(want + tail))):
         u = H.PrimaryHeader.unpack(buf)
